@@ -48,7 +48,7 @@ func init() {
 			"Not decided: the window statement for all histories (loop arithmetic over runtime data), absence of network access, that NaCl/Ed25519 reject every altered bit, equality of payload bytes for all sizes.",
 		Trusted:     []string{"nacl/secretbox, Ed25519 (libp2p crypto), HKDF/SHA3", "go/packages+go/ssa (x/tools v0.29.0)", "go-datastore Get/Put/Delete semantics", "effects identified by the namespace constants of pkg/secretstore"},
 		Assumptions: []string{"the 'newly decrypted' flag is only stored where C01.D2 says (checked there for the whole module, here again for the push scope)", "interface calls on SecretStore resolve to the module implementation"},
-		Floors:      map[string]int{"D1": 8, "D2": 5, "D3": 7, "D4": 14, "D5": 16, "D6": 15, "D7": 5, "D8": 2, "D9": 1, "D10": 10, "D11": 2},
+		Floors:      map[string]int{"D1": 8, "D2": 5, "D3": 7, "D4": 14, "D5": 14, "D6": 15, "D7": 5, "D8": 2, "D9": 1, "D10": 10, "D11": 2},
 		Run:         runC14,
 	})
 }
@@ -243,7 +243,7 @@ func c14RolesOn(w *World, fn *ssa.Function, v ssa.Value, inline bool, frames []c
 					if pt, isPtr := vt.Underlying().(*types.Pointer); isPtr {
 						vt = pt.Elem()
 					}
-					if rest != "" || c14IsAnchorType(vt) {
+					if rest != "" || (c14IsAnchorType(vt) && !rs.hasPrefix("param:"+base+".")) {
 						seen[c14TypeName(vt)+rest] = true
 					}
 					out.add(k)
@@ -389,7 +389,41 @@ func c14LookupRole(cs *c14Sites, name string, preds ...EffPred) checkRole {
 		return false
 	}
 	return checkRole{Name: name, Match: func(fn *ssa.Function, ci ssa.CallInstruction) []ssa.Value {
-		if s, ok := cs.of(fn)[ci]; ok && matches(s) {
+		viaClosure := false
+		if call, isCall := ci.(*ssa.Call); isCall {
+			for _, cc := range c14ClosureCalls(fn) {
+				if cc.call != call {
+					continue
+				}
+				viaClosure = true
+				// the helper's error is the lookup's verdict only if the closure hands the lookup's
+				// error on (returns it or rejects on it) and the helper hands the closure's error on
+				h := staticCallee(call.Common())
+				passes := false
+				for inner, s := range cs.of(cc.closure) {
+					if matches(s) && rejectOnFailure(cc.closure, errVerdict(inner)).OK {
+						passes = true
+					}
+				}
+				if passes && h != nil {
+					for _, hb := range h.Blocks {
+						for _, hin := range hb.Instrs {
+							if hc, ok := hin.(*ssa.Call); ok && !hc.Common().IsInvoke() && staticCallee(hc.Common()) == nil {
+								if _, isPrm := hc.Common().Value.(*ssa.Parameter); isPrm && rejectOnFailure(h, errVerdict(hc)).OK {
+									if v := errVerdict(ci); v != nil {
+										return []ssa.Value{v}
+									}
+								}
+							}
+						}
+					}
+				}
+			}
+		}
+		if _, callsParam := ci.Common().Value.(*ssa.Parameter); callsParam && !ci.Common().IsInvoke() {
+			return nil // `fn()` inside a run-under-lock helper: judged at the helper's call sites, with the closure
+		}
+		if s, ok := cs.of(fn)[ci]; ok && matches(s) && !viaClosure {
 			if v := errVerdict(ci); v != nil {
 				return []ssa.Value{v}
 			}
@@ -844,7 +878,7 @@ func c14D1(c *Ctx, ei *effectInfo, openO *ssa.Function, pushScope []*ssa.Functio
 	// the push scope are looked at as well
 	direct := func(pred EffPred) (string, token.Pos) {
 		for _, fn := range pushScope {
-			for _, s := range ei.sitesWith(fn, pred) {
+			for _, s := range c14SitesWith(ei, fn, pred) {
 				if s.Direct {
 					return fmt.Sprintf("%s (%s)", fnName(fn), c.pos(posOf(s.Instr))), posOf(s.Instr)
 				}
@@ -910,7 +944,7 @@ func c14D1(c *Ctx, ei *effectInfo, openO *ssa.Function, pushScope []*ssa.Functio
 		addEff(e)
 	}
 	for _, fn := range pushScope {
-		for _, s := range ei.sitesIn(fn) {
+		for _, s := range c14SitesIn(ei, fn) {
 			if s.Direct {
 				for _, e := range s.Effects {
 					addEff(e)
@@ -1502,57 +1536,88 @@ func c14D5(c *Ctx, ei *effectInfo, cs *c14Sites, openO, sealO, updR *ssa.Functio
 	// (c) the store side: the function(s) with a direct Put[hint]
 	putHint, delHint, getHint := eff("Put", nsHint), eff("Delete", nsHint), eff("Get", nsHint)
 	updScope := w.reachableFuncs([]*ssa.Function{updR}, 4)
+	// a store site: a direct Put/Delete on the hint namespace, with the function in which its
+	// key is computed (the site's own function, or, when the operation sits in a closure that
+	// receives the key as its parameter, the enclosing function at the dynamic call of the closure)
+	type storeSite struct {
+		fn    *ssa.Function // where key lives
+		key   ssa.Value
+		op    string
+		valFn *ssa.Function
+		val   ssa.Value
+		instr ssa.CallInstruction
+		kc    *ssa.Function
+	}
+	var storeSites []storeSite
 	var storeFns []*ssa.Function
 	nPutFns := 0
 	for _, fn := range sortedFuncs(updScope) {
 		if p := fnPkg(fn); p == nil || p.Path() != pkgSecret {
 			continue
 		}
-		hasPut := false
-		for _, s := range ei.sitesIn(fn) {
-			if s.Direct && (s.has(putHint) || s.has(delHint)) {
-				if !has(c14FnNames(storeFns), fnName(fn)) {
-					storeFns = append(storeFns, fn)
-				}
-				hasPut = hasPut || s.has(putHint)
+		for _, s := range c14SitesIn(ei, fn) {
+			if !s.Direct || !(s.has(putHint) || s.has(delHint)) {
+				continue
 			}
+			args := s.Instr.Common().Args
+			op := s.Effects[0].Op
+			var val ssa.Value
+			if op == "Put" && len(args) >= 3 {
+				val = args[2]
+			}
+			if op == "Put" {
+				nPutFns++
+			}
+			if prm, isParam := stripConv(args[1]).(*ssa.Parameter); isParam && fn.Parent() != nil {
+				for _, dc := range c14DynCallsOf(w, fn, c14ParamIndex(prm)) {
+					st := storeSite{fn: dc.call.Parent(), key: dc.arg, op: op, valFn: fn, val: val, instr: s.Instr}
+					if kcall, ok := stripConv(dc.arg).(*ssa.Call); ok {
+						if f := staticCallee(kcall.Common()); f != nil && inModule(f) {
+							st.kc = f
+						}
+					}
+					storeSites = append(storeSites, st)
+				}
+				continue
+			}
+			storeSites = append(storeSites, storeSite{fn: fn, key: args[1], op: op, valFn: fn, val: val, instr: s.Instr, kc: c14KeyCtor(s)})
 		}
-		nPutFns += map[bool]int{true: 1}[hasPut]
 	}
-	if nPutFns == 0 {
+	for _, st := range storeSites {
+		if !has(c14FnNames(storeFns), fnName(st.fn)) {
+			storeFns = append(storeFns, st.fn)
+		}
+	}
+	if nPutFns == 0 || len(storeSites) == 0 {
 		c.undecided("D5", fnName(updR)+"+Put[hint]", updR.Pos(), "no direct Put on the push-hint namespace behind UpdateOutOfStoreGroupReferences")
 		return refFn
 	}
 	var keyCtor *ssa.Function
 	for _, fn := range storeFns {
 		c.analysed(fn)
-		for _, s := range ei.sitesIn(fn) {
-			if !s.Direct || !(s.has(putHint) || s.has(delHint)) {
+		feedsPut := map[*ssa.Call]bool{}
+		for _, st := range storeSites {
+			if st.fn != fn {
 				continue
 			}
-			op := s.Effects[0].Op
-			construct := fnName(fn) + "+" + op + "[hint]"
-			args := s.Instr.Common().Args
-			_, krs := c14Roles(w, fn, args[1], false)
-			c.check(krs["call:"+funcKey(refFn)], "D5", construct+".key", posOf(s.Instr), "stored reference computed by the sealer's reference function", "the reference "+strings.ToLower(op)+" in the store is not computed by "+fnName(refFn)+", the function the sealer uses")
-			if kc := c14KeyCtor(s); kc != nil && op == "Put" {
-				keyCtor = kc
+			construct := fnName(fn) + "+" + st.op + "[hint]"
+			_, krs := c14Roles(w, fn, st.key, false)
+			c.check(krs["call:"+funcKey(refFn)], "D5", construct+".key", posOf(st.instr), "stored reference computed by the sealer's reference function", "the reference "+strings.ToLower(st.op)+" in the store is not computed by "+fnName(refFn)+", the function the sealer uses")
+			if st.kc != nil && st.op == "Put" {
+				keyCtor = st.kc
 			}
-			if op == "Put" && len(args) >= 3 {
-				roles := argRole(fn, args[2])
-				c.check(c14Only(roles, "Group.PublicKey"), "D5", construct+".value", posOf(s.Instr), "a reference maps to the group public key", fmt.Sprintf("the value stored under a reference is not the group's public key (sources %v): the push opener resolves the wrong group", roles))
+			if st.op == "Put" && st.val != nil {
+				roles := argRole(st.valFn, st.val)
+				c.check(c14Only(roles, "Group.PublicKey"), "D5", construct+".value", posOf(st.instr), "a reference maps to the group public key", fmt.Sprintf("the value stored under a reference is not the group's public key (sources %v): the push opener resolves the wrong group", roles))
 			}
-		}
-		// calls of the reference function: argument roles (the counter only where the result is stored:
-		// references to delete are enumerated from the stored window bounds)
-		feedsPut := map[*ssa.Call]bool{}
-		for _, s := range ei.sitesIn(fn) {
-			if s.Direct && s.has(putHint) {
-				if call := c14FindCall(s.Instr.Common().Args[1], refFn, 0); call != nil {
+			if st.op == "Put" {
+				if call := c14FindCall(st.key, refFn, 0); call != nil {
 					feedsPut[call] = true
 				}
 			}
 		}
+		// calls of the reference function: argument roles (the counter only where the result is stored:
+		// references to delete are enumerated from the stored window bounds)
 		for _, call := range c14CallsTo(fn, refFn) {
 			for i, a := range call.Common().Args {
 				pt := refFn.Signature.Params().At(i).Type()
@@ -1568,9 +1633,34 @@ func c14D5(c *Ctx, ei *effectInfo, cs *c14Sites, openO, sealO, updR *ssa.Functio
 				case c14TypeName(pt) == "[]byte":
 					c.check(c14Only(roles, "[]byte"), "D5", construct, posOf(call), "reference sender is the sender parameter", fmt.Sprintf("%s reference's sender is not the sender parameter (sources %v)", what, roles))
 				case c14TypeName(pt) == "uint64" && feedsPut[call]:
+					// counters taken from a local table of passes: those of the entries whose closure puts
+					if tbl, byEntry := c14TableFieldValues(a); tbl != nil {
+						var vals []ssa.Value
+						for _, st := range storeSites {
+							if st.fn != fn || st.op != "Put" {
+								continue
+							}
+							if al, k, ok := c14TableEntryOf(st.valFn); ok && al == tbl {
+								vals = append(vals, byEntry[k]...)
+							}
+						}
+						if len(vals) > 0 {
+							set := map[string]bool{}
+							for _, v := range vals {
+								for _, r := range argRole(fn, v) {
+									set[r] = true
+								}
+							}
+							roles = roles[:0]
+							for r := range set {
+								roles = append(roles, r)
+							}
+							sort.Strings(roles)
+						}
+					}
 					okCtr := has(roles, "uint64")
 					for _, r := range roles {
-						if r != "uint64" && !strings.HasPrefix(r, c14TypeName(fn.Params[0].Type())+".") {
+						if recv := c14TypeName(fn.Params[0].Type()); r != "uint64" && r != recv && !strings.HasPrefix(r, recv+".") {
 							okCtr = false
 						}
 					}
@@ -2155,7 +2245,7 @@ func c14D7(c *Ctx, ei *effectInfo, updR *ssa.Function) {
 		if p := fnPkg(fn); p == nil || p.Path() != pkgSecret {
 			continue
 		}
-		sites := ei.sitesWith(fn, onWindow)
+		sites := c14SitesWith(ei, fn, onWindow)
 		for _, s := range sites {
 			if !s.Direct {
 				continue
@@ -2168,8 +2258,36 @@ func c14D7(c *Ctx, ei *effectInfo, updR *ssa.Function) {
 				c.ok("D7", construct, posOf(s.Instr), "runs with %s write-locked on every call path", cls)
 				continue
 			}
+			// a closure run from a table: it executes at the dynamic calls of its enclosing function
+			if args := s.Instr.Common().Args; fn.Parent() != nil && len(args) >= 2 {
+				if prm, ok := stripConv(args[1]).(*ssa.Parameter); ok && prm.Parent() == fn {
+					dcs := c14DynCallsOf(w, fn, c14ParamIndex(prm))
+					held := len(dcs) > 0
+					for _, dc := range dcs {
+						if !li.heldAt(dc.call).holds(cls, 'W') {
+							held = false
+						}
+					}
+					if held {
+						c.ok("D7", construct, posOf(s.Instr), "runs (at the calls of the closure in %s) with %s write-locked", fnName(fn.Parent()), cls)
+						continue
+					}
+				}
+			}
 			chain := unlockedOnSomePath(w, in, cls, nil)
 			c.fail("D7", construct, posOf(s.Instr), "%s of the reference window runs without %s write-locked (call path %s): two concurrent window updates (a push and a log delivery of the same sender) interleave, the recorded first/last no longer describes the stored references and pushes inside the window are refused", s.Effects[0], cls, strings.Join(chain, " -> "))
+		}
+		// closures of fn that perform window effects run at fn's dynamic calls: those count as sites of fn
+		for _, g := range fn.AnonFuncs {
+			for _, gs := range c14SitesWith(ei, g, onWindow) {
+				if args := gs.Instr.Common().Args; gs.Direct && len(args) >= 2 {
+					if prm, ok := stripConv(args[1]).(*ssa.Parameter); ok && prm.Parent() == g {
+						for _, dc := range c14DynCallsOf(w, g, c14ParamIndex(prm)) {
+							sites = append(sites, effectSite{Instr: dc.call, Effects: gs.Effects})
+						}
+					}
+				}
+			}
 		}
 		// one critical section: no release of the mutex between two window effects
 		var unlocks []ssa.Instruction
@@ -2358,9 +2476,16 @@ func c14D9(c *Ctx, ei *effectInfo, updR *ssa.Function) {
 			// that store a parameter, and helpers that return what they stored)
 			var written []ssa.Value
 			nSites, modelled, whyNot := 0, true, ""
+			viaClosure := map[ssa.CallInstruction]bool{}
+			for _, cc := range c14ClosureCalls(fn) {
+				viaClosure[cc.call] = true
+			}
 			for _, s := range ei.sitesWith(fn, putChain) {
 				if !instrReaches(s.Instr.(ssa.Instruction), u.(ssa.Instruction)) {
 					continue
+				}
+				if viaClosure[s.Instr] {
+					continue // the write is made by a closure handed to this helper: followed below
 				}
 				nSites++
 				vals, why := c14StoredAtSite(ei, fn, s, 0)
@@ -3210,4 +3335,204 @@ func c14ClosureCalls(fn *ssa.Function) []c14ClosureCall {
 		}
 	}
 	return out
+}
+
+// ---- closures called through a table ------------------------------------------------------
+
+type c14DynCall struct {
+	call *ssa.Call
+	arg  ssa.Value
+}
+
+// c14DynCallsOf: closure g (never called statically) may be called at every dynamic call of its
+// enclosing function whose callee has g's signature (a table / struct field of closures run by
+// a loop); returns those calls with the argument bound to g's parameter idx.
+func c14DynCallsOf(w *World, g *ssa.Function, idx int) []c14DynCall {
+	par := g.Parent()
+	if par == nil || idx < 0 {
+		return nil
+	}
+	for _, cs := range w.callGraph().callers[g] {
+		if staticCallee(cs.Instr.Common()) == g {
+			return nil
+		}
+	}
+	var out []c14DynCall
+	for _, b := range par.Blocks {
+		for _, in := range b.Instrs {
+			call, ok := in.(*ssa.Call)
+			if !ok || call.Common().IsInvoke() || staticCallee(call.Common()) != nil {
+				continue
+			}
+			if _, isBuiltin := call.Common().Value.(*ssa.Builtin); isBuiltin {
+				continue
+			}
+			sig, ok := call.Common().Value.Type().Underlying().(*types.Signature)
+			if !ok || !types.Identical(sig, g.Signature) || idx >= len(call.Common().Args) {
+				continue
+			}
+			out = append(out, c14DynCall{call, call.Common().Args[idx]})
+		}
+	}
+	return out
+}
+
+// c14SitesIn: the effect sites of fn, where a direct datastore operation of a closure whose key
+// is the closure's parameter takes its namespace label from the keys handed to the closure at
+// the dynamic calls of its enclosing function.
+func c14SitesIn(ei *effectInfo, fn *ssa.Function) []effectSite {
+	sites := ei.sitesIn(fn)
+	if fn.Parent() == nil {
+		return sites
+	}
+	out := make([]effectSite, 0, len(sites))
+	for _, s := range sites {
+		if s.Direct && len(s.Effects) == 1 && s.Effects[0].NS == "" {
+			if args := s.Instr.Common().Args; len(args) >= 2 {
+				if prm, ok := stripConv(args[1]).(*ssa.Parameter); ok && prm.Parent() == fn {
+					labels := map[string]bool{}
+					for _, dc := range c14DynCallsOf(ei.w, fn, c14ParamIndex(prm)) {
+						for _, l := range strings.Split(ei.namespaceOf(dc.arg), "|") {
+							if l != "" {
+								labels[l] = true
+							}
+						}
+					}
+					var ls []string
+					for l := range labels {
+						ls = append(ls, l)
+					}
+					sort.Strings(ls)
+					s.Effects = []Effect{{Op: s.Effects[0].Op, NS: strings.Join(ls, "|")}}
+				}
+			}
+		}
+		out = append(out, s)
+	}
+	return out
+}
+
+func c14SitesWith(ei *effectInfo, fn *ssa.Function, p EffPred) []effectSite {
+	var out []effectSite
+	for _, s := range c14SitesIn(ei, fn) {
+		if s.has(p) {
+			out = append(out, s)
+		}
+	}
+	return out
+}
+
+// c14TableFieldValues: v is an element of a slice-typed field F of an element of a local table
+// (slice literal of structs) that is iterated: returns the table's backing array and, per entry
+// index, the values stored into field F of that entry.
+func c14TableFieldValues(v ssa.Value) (*ssa.Alloc, map[int64][]ssa.Value) {
+	ld, ok := stripConv(v).(*ssa.UnOp)
+	if !ok || ld.Op != token.MUL {
+		return nil, nil
+	}
+	ia, ok := ld.X.(*ssa.IndexAddr)
+	if !ok {
+		return nil, nil
+	}
+	var entry ssa.Value
+	field := -1
+	switch f := ia.X.(type) {
+	case *ssa.Field:
+		entry, field = f.X, f.Field
+	case *ssa.UnOp:
+		if fa, ok := f.X.(*ssa.FieldAddr); ok && f.Op == token.MUL {
+			entry, field = fa.X, fa.Field
+		}
+	}
+	if entry == nil {
+		return nil, nil
+	}
+	// entry: a copy of (or pointer to) table[i]
+	var eaddr ssa.Value = entry
+	if l2, ok := entry.(*ssa.UnOp); ok && l2.Op == token.MUL {
+		eaddr = l2.X
+	}
+	if cell, isCell := eaddr.(*ssa.Alloc); isCell && cell.Referrers() != nil {
+		// the loop variable lives in its own cell: `pass := table[i]`
+		for _, r := range *cell.Referrers() {
+			if st, isSt := r.(*ssa.Store); isSt && st.Addr == ssa.Value(cell) {
+				if l3, isLd := st.Val.(*ssa.UnOp); isLd && l3.Op == token.MUL {
+					eaddr = l3.X
+				}
+			}
+		}
+	}
+	ia2, ok := eaddr.(*ssa.IndexAddr)
+	if !ok {
+		return nil, nil
+	}
+	tbl := ia2.X
+	if sl, ok := tbl.(*ssa.Slice); ok {
+		tbl = sl.X
+	}
+	al, ok := tbl.(*ssa.Alloc)
+	if !ok || al.Referrers() == nil {
+		return nil, nil
+	}
+	out := map[int64][]ssa.Value{}
+	for _, r := range *al.Referrers() {
+		e, ok := r.(*ssa.IndexAddr)
+		if !ok || e.Referrers() == nil {
+			continue
+		}
+		k, isConst := constInt(e.Index)
+		if !isConst {
+			continue
+		}
+		for _, rr := range *e.Referrers() {
+			fa, ok := rr.(*ssa.FieldAddr)
+			if !ok || fa.Field != field || fa.Referrers() == nil {
+				continue
+			}
+			for _, r3 := range *fa.Referrers() {
+				if st, ok := r3.(*ssa.Store); ok && st.Addr == ssa.Value(fa) {
+					out[k] = append(out[k], st.Val)
+				}
+			}
+		}
+	}
+	return al, out
+}
+
+// c14TableEntryOf: closure g is stored into a field of entry k of a local table.
+func c14TableEntryOf(g *ssa.Function) (*ssa.Alloc, int64, bool) {
+	par := g.Parent()
+	if par == nil {
+		return nil, 0, false
+	}
+	for _, b := range par.Blocks {
+		for _, in := range b.Instrs {
+			st, ok := in.(*ssa.Store)
+			if !ok {
+				continue
+			}
+			v := st.Val
+			if ct, isCT := v.(*ssa.ChangeType); isCT {
+				v = ct.X
+			}
+			mc, ok := v.(*ssa.MakeClosure)
+			if !ok || mc.Fn != ssa.Value(g) {
+				continue
+			}
+			fa, ok := st.Addr.(*ssa.FieldAddr)
+			if !ok {
+				continue
+			}
+			e, ok := fa.X.(*ssa.IndexAddr)
+			if !ok {
+				continue
+			}
+			al, ok := e.X.(*ssa.Alloc)
+			k, isConst := constInt(e.Index)
+			if ok && isConst {
+				return al, k, true
+			}
+		}
+	}
+	return nil, 0, false
 }
